@@ -2,7 +2,7 @@
    exp enters as a universally quantified function E with explicit premises
    (E respects ==, E(-t)*E(t) = 1, E > 0); everything else is closed. *)
 From Coq Require Import String ZArith List Bool QArith Lia.
-From HD Require Import Base.Val C06_Model C06_Proofs C06_Proofs_Fold C06_Proofs_E2E C06_Proofs_Series.
+From HD Require Import Base.Val C06_Model C06_Proofs C06_Proofs_Fold C06_Proofs_E2E C06_Proofs_Series C06_Proofs_Layout.
 Import ListNotations.
 Open Scope Z_scope.
 
@@ -457,3 +457,39 @@ Example C06_nonvacuous_series :
     map Qred y0 <> map Qred y1 /\ map Qred y1 <> map Qred y2.
 Proof. exact series_nonvacuous. Qed.
 Print Assumptions C06_nonvacuous_series.
+
+(* ---- lut_identity over the memory layout of the array that was handed over ------------------- *)
+(* "lookup-table objects return the table they were given": for EVERY well-formed numpy view
+   (any buffer, byte offset, positive or negative byte stride, 8 bit items or 16 bit items in
+   big- or little-endian byte order) LUT(first, array).lut_data is the array's logical values *)
+Theorem C06_lut_layout_identity : forall first a expl pad,
+  na_valid a -> 0 <= first < 65536 -> 1 <= na_n a <= 65536 ->
+  exists l, mk_lut_arr first a expl pad = Ok l /\
+            lut_data l = Ok (na_values a) /\ ld_first l = first /\ ld_bits l = 8 * na_item a /\
+            lut_entries l = na_n a /\
+            ld_n l = (if na_n a =? 65536 then 0 else na_n a).
+Proof. exact lut_layout_identity. Qed.
+Print Assumptions C06_lut_layout_identity.
+
+Theorem C06_lut_layout_stored_bytes : forall first a expl pad l,
+  mk_lut_arr first a expl pad = Ok l -> ld_bytes l = std_bytes (8 * na_item a) (na_values a).
+Proof. exact lut_layout_stored_bytes. Qed.
+Print Assumptions C06_lut_layout_stored_bytes.
+
+Theorem C06_lut_layout_irrelevant : forall first a b expl pad,
+  na_item a = na_item b -> na_values a = na_values b ->
+  mk_lut_arr first a expl pad = mk_lut_arr first b expl pad.
+Proof. exact lut_layout_irrelevant. Qed.
+Print Assumptions C06_lut_layout_irrelevant.
+
+(* the byte-order normalisation is necessary: storing the array's own (contiguous) bytes returns
+   another table for a big-endian array *)
+Theorem C06_lut_own_bytes_refuted :
+  na_valid be_300 /\ na_values be_300 = [300] /\
+  lut_data (mk_lut_arr_own_bytes 0 be_300) = Ok [11265].
+Proof. exact lut_own_bytes_refuted. Qed.
+Print Assumptions C06_lut_own_bytes_refuted.
+
+Example C06_nonvacuous_lut_layout : na_valid be_view /\ na_values be_view = [300; 65000].
+Proof. exact be_view_ok. Qed.
+Print Assumptions C06_nonvacuous_lut_layout.
